@@ -129,6 +129,13 @@ def build_flow(torch, st, D, seed):
     g = torch.Generator().manual_seed(seed + 99)
     if bname == "StandardNormal":
         base = Dd.StandardNormal([D])
+    elif bname == "MADEMoG":
+        from nflows.distributions.mixture import MADEMoG
+
+        base = MADEMoG(D, 8, 2 if ctx else None, num_blocks=1, num_mixture_components=2)   # conditional when the flow is
+        with torch.no_grad():
+            for p_ in base.parameters():
+                p_.add_(0.2 * torch.randn(p_.shape, generator=g))
     elif bname == "DiagonalNormal":
         base = Dd.DiagonalNormal([D])
         with torch.no_grad():
@@ -173,7 +180,10 @@ def mass(torch, flow, D, ctx_row, panels):
                 mu = base.mean_.reshape(1, -1)
             else:
                 mu = torch.zeros(1, D, dtype=torch.float64)
-            x0 = flow._transform.inverse(mu.double(), ctx_row)[0]
+            # (on a copy: the flow under test keeps the cache state its history left it in)
+            import copy as _copy
+
+            x0 = _copy.deepcopy(flow)._transform.inverse(mu.double(), ctx_row)[0]
             t0s = [float(v) for v in torch.asinh(x0).reshape(-1)]
     except Exception:
         pass
@@ -254,13 +264,15 @@ def flow_task(t):
         ctxs = torch.tensor([[0.5, -1.0], [-0.3, 0.8]], dtype=torch.float64) if case["ctx"] else [None]
         if case["ctx"] and case["base"] == "ConditionalDiagonalNormal" and D == 1:
             ctxs = torch.tensor([[0.5, -1.0], [-0.3, -7.5]], dtype=torch.float64)   # second row: std 5.5e-4
-        histories = ["plain"] + (["cache_after_sample"] if "linear" in names and onto else [])
+        # "cache_cold": the weight cache is on and empty, and the first thing the flow is asked for is a density
+        # (the forward pass fills the cache); "cache_after_sample": the inverse pass filled it
+        histories = ["plain"] + (["cache_after_sample", "cache_cold"] if "linear" in names and onto else [])
         if onto and ({"affine", "actnorm", "linear", "autoregressive", "coupling", "batchnorm"} & set(names)):
             histories.append("after_load")
         for hist in histories:
             for mod in flow.modules():
                 if isinstance(mod, Linear):
-                    mod.use_cache(hist == "cache_after_sample")
+                    mod.use_cache(hist in ("cache_after_sample", "cache_cold"))
                     mod.cache.invalidate()
             if hist == "after_load":
                 # a flow built with other parameter / buffer values receives this flow's state dict
@@ -307,10 +319,30 @@ def flow_task(t):
                     out["skipped"].append("flow %s | %s: several clamped Logit stages, no exact accounting" % (names, case["base"]))
                     break
                 if tot != tot:
+                    # no number: either the cubature did not converge, or the density itself is not a number at
+                    # ordinary points although the same flow, freshly evaluated without any history, has one there
+                    nan_here = False
+                    if onto and hist != "plain":
+                        try:
+                            with torch.no_grad():
+                                xp = 0.7 * torch.randn(6, D, dtype=torch.float64, generator=torch.Generator().manual_seed(seed + 17))
+                                cp = c.expand(6, -1) if c is not None else None
+                                ref = build_flow(torch, st, D, seed)
+                                for mod in ref.modules():
+                                    if isinstance(mod, Linear):
+                                        mod.use_cache(False)
+                                a_ = ref.log_prob(xp, cp) if cp is not None else ref.log_prob(xp)
+                                b_ = flow_used.log_prob(xp, cp) if cp is not None else flow_used.log_prob(xp)
+                                nan_here = hist != "after_load" and bool((torch.isfinite(a_) & ~torch.isfinite(b_)).any())
+                        except Exception:  # noqa
+                            nan_here = False
+                    if nan_here:
+                        out["fails"].append(dict(case, hist=hist, clause="not_normalised", detail="flow %s | %s (D=%d, %s): log_prob is not a number at ordinary points where the same flow without that history returns finite values" % (" -> ".join(names), case["base"], D, hist)))
+                        break
                     out["skipped"].append("flow %s | %s (D=%d): the adaptive cubature did not converge" % (names, case["base"], D))
                     break
                 if onto and not abs(tot - want) <= tol:
-                    out["fails"].append(dict(case, hist=hist, clause="not_normalised", detail="flow %s | %s (D=%d%s%s): exp(log_prob) integrates to %.7f%s" % (" -> ".join(names), case["base"], D, ", context row %d" % r if case["ctx"] else "", {"plain": "", "cache_after_sample": ", cache on after sample()", "after_load": ", state dict loaded into a flow built with other values"}[hist], tot, "" if want == 1.0 else " (the image of Logit's clamped domain carries base mass %.7f)" % want)))
+                    out["fails"].append(dict(case, hist=hist, clause="not_normalised", detail="flow %s | %s (D=%d%s%s): exp(log_prob) integrates to %.7f%s" % (" -> ".join(names), case["base"], D, ", context row %d" % r if case["ctx"] else "", {"plain": "", "cache_after_sample": ", cache on after sample()", "cache_cold": ", cache on, density first", "after_load": ", state dict loaded into a flow built with other values"}[hist], tot, "" if want == 1.0 else " (the image of Logit's clamped domain carries base mass %.7f)" % want)))
                     break
                 if not onto and abs(tot - 1.0) <= tol:
                     out["drift"].append("flow %s | %s is not onto the base support according to FlowVal.tla but integrates to %.7f" % (names, case["base"], tot))
